@@ -143,3 +143,18 @@ where
     }
     private_impl! {}
 }
+
+/// Verification hook: crate-external access to the index computations.
+#[cfg(rust_ndarray_ndarray_stats_verif)]
+pub mod verif_index_api {
+    use noisy_float::types::N64;
+    pub fn lower_index(q: N64, len: usize) -> usize {
+        super::lower_index(q, len)
+    }
+    pub fn higher_index(q: N64, len: usize) -> usize {
+        super::higher_index(q, len)
+    }
+    pub fn float_quantile_index_fraction(q: N64, len: usize) -> N64 {
+        super::float_quantile_index_fraction(q, len)
+    }
+}
